@@ -60,10 +60,11 @@ void FN(set_force)(int k, unsigned long long v) {
 }
 
 // One-factor sweep over this build's reading code (cases.hpp); emits tapes [0xF0, type, version, k, v, body]
-void FN(sweep)(int shard, int nshards, unsigned maxK, unsigned maxV, unsigned nPatterns, void (*emit)(void*, const unsigned char*, size_t), void* ctx,
-			   unsigned long long* tried, unsigned long long* novel) {
+void FN(sweep)(int shard, int nshards, unsigned maxK, unsigned maxV, unsigned nPatterns, void (*emit)(void*, const unsigned char*, size_t),
+			   void (*announce)(void*, const unsigned char*, size_t), void* ctx, unsigned long long* tried, unsigned long long* novel) {
 	uint64_t t = 0, n = 0;
-	vf::sweepCells(shard, nshards, maxK, maxV, nPatterns, [&](const std::vector<uint8_t>& tape) { emit(ctx, tape.data(), tape.size()); }, t, n);
+	vf::sweepCells(shard, nshards, maxK, maxV, nPatterns, [&](const std::vector<uint8_t>& tape) { emit(ctx, tape.data(), tape.size()); }, t, n,
+				   [&](const std::vector<uint8_t>& tape) { announce(ctx, tape.data(), tape.size()); });
 	*tried = t;
 	*novel = n;
 }
